@@ -37,7 +37,11 @@
 //	      pool open, F, consultation, E and G: an injected failure of a File
 //	      method has no effect on the handle either (after a failed Close the
 //	      handle still reads, writes, seeks, stats and closes as the twin base
-//	      handle that was never closed).
+//	      handle that was never closed). The File alphabet of every part holds
+//	      each method also with the argument tuples that do nothing or only
+//	      query (ops.go, fileNoopCalls: Seek(0,SeekCurrent), Truncate(current
+//	      size), empty buffers, ReadDir(0) ...): a shortcut for them placed in
+//	      front of the consultation is entered by no tuple that has an effect.
 //	(iii) engine A with failfs.ReadOnlyFunc installed: the base dump including
 //	      contents and modification times is identical around every call of
 //	      the alphabet, whatever the call returned; the OpenFile flag alphabet
@@ -300,12 +304,19 @@ func main() {
 		}
 		stackDepth, wideDepth, midDepth = 3, 2, 3
 		handlePres = []string{"*"}
+		handleFollowAll = true
 		whenLate = 2
 		whenRuns = []whenRun{{lateWhen(1), 2, true, handlePres}}
 		famFaults = []famFault{
 			{famName(2, "root", false), 2, true, handlePres}, {famName(2, "v2", false), 2, true, nil},
 			{famName(2, "v1", false), 1, false, nil}, {famName(3, "root", false), 1, true, nil}, {famName(1, "w", false), 1, false, nil},
 		}
+	}
+
+	// what the follow-up call G of a handle programme ranges over (fault.go, expandHandle)
+	followCount, followText := len(fileCalls())-len(fileNoopCalls()), "every File call but the neutral argument tuples (those are enumerated as F, and as G in the thorough tier)"
+	if handleFollowAll {
+		followCount, followText = len(fileCalls()), "every File call of the alphabet, the neutral argument tuples included"
 	}
 
 	if *depthF > 0 {
@@ -1080,7 +1091,8 @@ func main() {
 			"single_fault_runs": faultRuns,
 			"concurrent_part":   conc,
 			"handle_programmes": map[string]any{
-				"shape":                        "open (every pool open of slot 0 on the FailFS, and on MemFS through Sub(\"/\") and through Sub(\"/\") of Sub(\"/\")); [pre]; F fails; G; Close - F, G: every File method of the alphabet",
+				"shape":                        "open (every pool open of slot 0 on the FailFS, and on MemFS through Sub(\"/\") and through Sub(\"/\") of Sub(\"/\")); [pre]; F fails; G; Close - F: every File call of the alphabet, G: " + followText,
+				"neutral_argument_tuples":      noopStrings(),
 				"opening_prefixes":             hprefixes,
 				"pre":                          append([]string{"(none)"}, handlePres...),
 				"fault_free_runs":              hprogs,
@@ -1167,14 +1179,14 @@ func main() {
 			"exhaustive":                    bfsExh && faultExh && harnessErr == "",
 			"bound": fmt.Sprintf("(i)/(iii) all histories of length <= %d (completed %d) per system, OpenFile with %d flag sets (4 of them O_RDONLY plus TRUNC / CREATE / CREATE|EXCL / APPEND) on each of %d paths; "+
 				"(ii) all single-fault plans of all histories of length <= %d (completed %d), twin in lock-step before and after the failure; "+
-				"(ii') all handle programmes open;[pre];F fails;G;Close with pre in {none, %s} (\"*\" = every File call), every File method F (every consultation, every error) and every File method G (%d letters); "+
+				"(ii') all handle programmes open;[pre];F fails;G;Close with pre in {none, %s} (\"*\" = every File call), every File call F (every consultation, every error; %d letters per handle, of which %d are the argument tuples that do nothing or only query: %s) and every File call G (%d letters: %s); "+
 				"(iv) stacked and wrapped bases, same alphabet, twin = the wrapped base driven directly (twin stacks) or the bare base (plan stacks): engine A %s; fault enumeration %s; "+
 				"(vi) moment of SetFailFunc, same alphabet: engine A %s; fault enumeration %s; "+
 				"(vii) depth of derivation, same alphabet (which includes Sub of the pooled view), start states whose pool holds the view dN = root.Sub(\"/\")...Sub(\"/\") (N Sub calls), "+
 				"SetFailFunc called on the member named (root, v1..vN, a sibling w of vN), .pre = before the rest of the family is derived, MemFS: engine A %s; fault enumeration %s; "+
 				"(viii) in every recording and single-fault plan above the failure function overwrites its *FailParam after reading it, and the temp calls are enumerated with the arguments that select a default "+
 				"(dir \"\" with patterns \"t*\"/\"m*\" and \"\") besides every named directory; every base effect of a listed composite is attributed to the consultation that precedes it",
-				bfsDepth, depthDone, len(flagSets), len(nsPaths), faultHist, histDone, strings.Join(handlePres, ", "), len(fileCalls()),
+				bfsDepth, depthDone, len(flagSets), len(nsPaths), faultHist, histDone, strings.Join(handlePres, ", "), len(fileCalls()), len(fileNoopCalls()), noopStrings(), followCount, followText,
 				strings.Join(bfsStackNames, ", "), stackFaultBound, strings.Join(whenBfsNames, ", "), whenFaultBound,
 				strings.Join(famBfsNames, "; "), famFaultBound),
 			"known_findings_matched": append([]string{}, rep.KnownMatched()...),
